@@ -132,6 +132,9 @@ class Runner:
                 lines.append('genComp %s %s %s %s %s %s %s' % (idxs(keep), mcv['scr'] or 'N', sets, rates, presel, sf.il(draw), idxs(w.exp_field_names())))
             elif k in ('genSigReal', 'genSigRealRanges'):
                 # the real MCMultiDatasetSignalGenerator (get_selection on data.mc, post-sampling processing, set_selection)
+                if k == 'genSigRealRanges' and (len(w.mc) < 4 or np.count_nonzero(np.abs(w.mc['dec'].astype(np.float64)) < 1.45) < 0.75 * len(w.mc)):
+                    # too few valid MC events: the generator would re-draw for ever (not the subject of C07)
+                    return ('ok', None, None)
                 gen = w.real_signal_generator(valid_ranges=(k == 'genSigRealRanges'))
                 (_, d) = gen.generate_signal_events(rss, op['k'], poisson=False)
                 new = d.get(0)
@@ -703,7 +706,7 @@ def run(ctx):
                         'one MCDataSamplingBkgGenMethod instance per history (one _cache_mc)']
     # ---- scrambling contract
     deferred = []
-    for i in range(ctx.n(60, 1500)):
+    for i in range(ctx.n(60, 1200)):
         spec = pf.gen_spec(rng)
         case = {'spec': spec, 'scr': rng.choice(pf.SCRAMBLERS + ['uniform_range', 'uniform_range']), 'seed': rng.randrange(10**6),
                 'via': rng.choice(['scrambler', 'bkg'])}
@@ -732,7 +735,7 @@ def run(ctx):
             ctx.violation('ra_corner', case, res, signature='C07/scramble/azi_to_ra/half-open-range')
     # ---- byte snapshots over histories (incl. Analysis.do_trial)
     maxlen = ctx.n(4, 6)
-    for i in range(ctx.n(250, 8000)):
+    for i in range(ctx.n(250, 6000)):
         spec = pf.gen_spec(rng)
         ops = gen_history(rng, rng.randrange(1, maxlen + 1), with_dotrial=True)
         case = {'spec': spec, 'ops': ops}
@@ -747,7 +750,7 @@ def run(ctx):
     # ---- correspondence with the heap model (one driver batch)
     dis = 0
     batch, all_lines = [], []
-    for i in range(ctx.n(300, 6000)):
+    for i in range(ctx.n(300, 4500)):
         spec = pf.gen_spec(rng)
         ops = gen_history(rng, rng.randrange(1, maxlen + 1))
         case = {'spec': spec, 'ops': ops}
